@@ -664,6 +664,9 @@ def judge(w, obs, twin, info, transient, fail, stats, what, on, pl):
         # faulted cell may show that cell's error kind
         if (G.reach(i) - {i}) & direct_any:
             kinds[i].update({'e:#REF!', 'e:#NAME?'})
+            # (... a reference one area of which is #REF! is #VALUE! / #NULL!)
+            if any('e:#VALUE!' in kinds.get(j, ()) for j in G.reach(i) - {i}):
+                kinds[i].update({'e:#VALUE!', 'e:#NULL!'})
         # a cell OF a transiently failing book is #REF! as a whole when the
         # open that was meant to load it failed
         if transient and w['cells'][i]['at'][0] in bad_books:
